@@ -333,6 +333,45 @@ pub fn run(args: &Args) -> i32 {
         });
     }
 
+    // 2d. "... so the vertex program can always emit a row for every event serial number": the real alpha-g-vertices on
+    //     files whose main events are, in every order of three kinds, {reconstructable, rejected by the event builder,
+    //     built but without a vertex}; other event types in between
+    {
+        use crate::refmodel::midas::*;
+        let good = bases.iter().find(|b| b.0.starts_with("one pad column")).unwrap().1.encode();
+        let mut rejected = good.clone();
+        rejected.retain(|b| b.0 != "ATAT");
+        let mut junk = good.clone();
+        junk.push(("XXXX".into(), vec![1, 2, 3, 4]));
+        let tiny = bases.iter().find(|b| b.0.starts_with("a single wire")).unwrap().1.encode();
+        let kinds: [&Banks; 4] = [&good, &rejected, &junk, &tiny];
+        rep.run("vertex-program-rows", 4 * 4 * 4 * 4, 300, true, "alpha-g-vertices on a file of 4 main events, each one of {reconstructable, no TRG bank, unknown bank, single wire + single pad}, all 256 sequences, a sequencer event in between: exit 0 and exactly one row per main event with its serial number, in order", |k, loc| {
+            let d = unrank(k, &[4, 4, 4, 4]);
+            let mut evs: Vec<MEvent> = Vec::new();
+            for (i, &x) in d.iter().enumerate() {
+                evs.push(MEvent { id: 1, serial: 100 + 7 * i as u32, timestamp: 1_700_000_000 + i as u32, fmt: BankFmt::B32, banks: kinds[x as usize].clone() });
+                if i == 1 {
+                    evs.push(MEvent { id: 8, serial: 5, timestamp: 1_700_000_001, fmt: BankFmt::B32, banks: vec![("SEQ2".into(), vec![0; 8])] });
+                }
+            }
+            let dir = Scratch::new(&format!("c09v{k}"));
+            let f = dir.write("run.mid", &encode_file(SIM_RUN, 5000, 5001, &evs));
+            let out = run_binary("alpha-g-vertices", &dir.0, &[f], None);
+            loc.note(hash64(&(k, "vprog")), true, if out.status == Some(0) { "exit-0" } else { "failed" });
+            let what = json!({"main_event_kinds": d, "exit": out.status, "stderr": out.stderr.lines().last().unwrap_or("")});
+            if out.status != Some(0) || out.stderr.contains("panicked at") {
+                loc.violation("vertex-program:did-not-finish", what);
+                return;
+            }
+            let rows = out.csv.as_deref().map(csv_rows).unwrap_or_default();
+            let serials: Vec<String> = rows.iter().skip(1).map(|r| r[0].clone()).collect();
+            let want: Vec<String> = (0..4).map(|i| (100 + 7 * i).to_string()).collect();
+            if serials != want {
+                loc.violation("vertex-program:row-missing-or-out-of-order", json!({"case": what, "serial_numbers_in_csv": serials, "expected": want}));
+            }
+        });
+    }
+
     // 3. other run numbers (maps / calibrations present or absent)
     let runs = [0u32, 2941, 4418, 7026, 9277, 10418, 11084, 11200, 20000, u32::MAX - 1];
     let real = hits_event(&[Hit { wire: 20, bin: 30, z: 0.1013, amp: 120.0 }, Hit { wire: 22, bin: 30, z: 0.35, amp: 90.0 }], 0.004, 9);
